@@ -8,6 +8,7 @@ If a data file changes so that a property clause breaks, this module stops compi
 reports the broken proof obligation and scans the data for the offending rows.
 -/
 import ArmiVerif.Props.C19
+import ArmiVerif.Props.C19Strings
 import ArmiVerif.Gen.NuclideTable
 
 namespace ArmiVerif.Nuclide
@@ -186,6 +187,105 @@ theorem mcc_names_sound (gs : List Group) (keys : List Nat) (h : checkMccNames g
   have := subsetSorted_spec _ _ h k hk
   simpa [List.mem_map] using this
 
+
+/-! ### elements table, identifier strings, natural isotopics -/
+
+private theorem allDistinct_spec (l : List Nat) (h : allDistinct l = true) : l.Nodup := by
+  induction l with
+  | nil => simp
+  | cons x xs ih =>
+    simp only [allDistinct, Bool.and_eq_true, Bool.not_eq_true', List.contains_eq_mem, decide_eq_false_iff_not] at h
+    exact List.nodup_cons.2 ⟨h.1, ih h.2⟩
+
+private theorem inj_of_nodup_map {α} (f : α → Nat) : ∀ (l : List α), (l.map f).Nodup →
+    ∀ a ∈ l, ∀ b ∈ l, f a = f b → a = b
+  | [], _, a, ha, _, _, _ => by cases ha
+  | x :: xs, h, a, ha, b, hb, hab => by
+    simp only [List.map_cons, List.nodup_cons, List.mem_map, not_exists, not_and] at h
+    rcases List.mem_cons.1 ha with ha' | ha' <;> rcases List.mem_cons.1 hb with hb' | hb'
+    · rw [ha', hb']
+    · exact absurd (by rw [← hab, ha']) (h.1 b hb')
+    · exact absurd (by rw [hab, hb']) (h.1 a ha')
+    · exact inj_of_nodup_map f xs h.2 a ha' b hb' hab
+
+/-- what `checkElements` establishes: symbols are 1–2 capital letters; symbol ↔ atomic number is a bijection
+on the elements table -/
+theorem checkElements_sound (es : List Elem) (h : checkElements es = true) :
+    (∀ e ∈ es, symValid e.sym = true) ∧
+    (∀ e1 ∈ es, ∀ e2 ∈ es, (e1.sym = e2.sym ↔ e1.z = e2.z) ∧ (e1.sym = e2.sym → e1 = e2)) := by
+  simp only [checkElements, Bool.and_eq_true, List.all_eq_true] at h
+  obtain ⟨⟨hv, hs⟩, hz⟩ := h
+  have hsym := (sortedFrom_spec _ _ hs).2
+  have hzn := allDistinct_spec _ hz
+  refine ⟨hv, ?_⟩
+  intro e1 h1 e2 h2
+  refine ⟨⟨fun he => ?_, fun he => ?_⟩, fun he => eq_of_key_eq (·.sym) es hsym h1 h2 he⟩
+  · rw [eq_of_key_eq (·.sym) es hsym h1 h2 he]
+  · rw [inj_of_nodup_map (·.z) es hzn e1 h1 e2 h2 he]
+
+private theorem nameSuffix_le (z a s : Nat) (h : s ≤ 3) : nameSuffix z a s ≤ 4 := by
+  unfold nameSuffix; split <;> omega
+
+/-- **no two nuclides of the table share an identifier STRING**: name, label, MCNP id, AAAZZZS id or database
+name, as the character sequences Python produces. -/
+theorem table_id_strings_unique (F : TableFacts es gs) (hsv : ∀ e ∈ es, symValid e.sym = true) :
+    ∀ r1 ∈ allRows gs, ∀ r2 ∈ allRows gs,
+      (nameChars r1 = nameChars r2 ∨ (∃ l, labelCharsOf r1 = some l ∧ labelCharsOf r2 = some l) ∨
+        mcnpChars r1 = mcnpChars r2 ∨ aaazzzsChars r1 = aaazzzsChars r2 ∨ dbNameChars r1 = dbNameChars r2) →
+      r1 = r2 := by
+  intro r1 hr1 r2 hr2 hid
+  obtain ⟨⟨e1, he1, _, hs1⟩, _, hst1, _, hz1, hm1, _⟩ := table_rows_wellformed F r1 hr1
+  obtain ⟨⟨e2, he2, _, hs2⟩, _, hst2, _, hz2, hm2, _⟩ := table_rows_wellformed F r2 hr2
+  have v1 : symValid r1.sym = true := hs1 ▸ hsv e1 he1
+  have v2 : symValid r2.sym = true := hs2 ▸ hsv e2 he2
+  have k1 : (nameId r1).2.2 ≤ 4 := nameSuffix_le _ _ _ hst1
+  have k2 : (nameId r2).2.2 ≤ 4 := nameSuffix_le _ _ _ hst2
+  apply table_ids_unique F r1 hr1 r2 hr2
+  rcases hid with h | ⟨l, h1, h2⟩ | h | h | h
+  · exact Or.inl (nameChars_injective r1 r2 v1 v2 k1 k2 h)
+  · exact Or.inr (Or.inl (labelChars_injective r1 r2 v1 v2 l h1 h2))
+  · exact Or.inr (Or.inr (Or.inl (mcnpChars_injective r1 r2 hm1 hm2 h)))
+  · exact Or.inr (Or.inr (Or.inr (aaazzzsChars_injective r1 r2 hz1 hz2 (by omega) (by omega) h)))
+  · exact Or.inl (nameChars_injective r1 r2 v1 v2 k1 k2 (dbNameChars_injective r1 r2 v1 v2 k1 k2 h))
+
+/-- every nuclide of the table has a label string (states ≤ 3) -/
+theorem table_labels_defined (F : TableFacts es gs) : ∀ r ∈ allRows gs, ∃ l, labelCharsOf r = some l := by
+  intro r hr
+  obtain ⟨_, _, hst, _⟩ := table_rows_wellformed F r hr
+  exact labelChars_defined r hst
+
+theorem naturalsMatch_sound : ∀ (gs : List Group) (ns : List (Nat × List Nat)), naturalsMatch gs ns = true →
+    gs.length = ns.length ∧ ∀ p ∈ gs.zip ns, p.1.z = p.2.1 ∧ (naturalIsotopics p.1).map isoKey = p.2.2
+  | [], [], _ => by simp
+  | [], _ :: _, h => by simp [naturalsMatch] at h
+  | _ :: _, [], h => by simp [naturalsMatch] at h
+  | g :: gs, n :: ns, h => by
+    simp only [naturalsMatch, Bool.and_eq_true, decide_eq_true_eq] at h
+    obtain ⟨hl, hp⟩ := naturalsMatch_sound gs ns h.2
+    refine ⟨by simp [hl], ?_⟩
+    intro p hpm
+    simp only [List.zip_cons_cons, List.mem_cons] at hpm
+    rcases hpm with rfl | hpm
+    · exact ⟨h.1.1, h.1.2⟩
+    · exact hp p hpm
+
+/-- **per element, the natural isotopics (abundance > 0, ground states and isomers alike) are exactly the list
+the loaded implementation reports, and their abundances sum to one within data precision** -/
+theorem checkNaturals_sound (gs : List Group) (ns : List (Nat × List Nat)) (h : checkNaturals gs ns = true) :
+    gs.length = ns.length ∧
+    (∀ p ∈ gs.zip ns, p.1.z = p.2.1 ∧ (naturalIsotopics p.1).map isoKey = p.2.2) ∧
+    (∀ g ∈ gs, naturalIsotopics g = [] ∨
+      (abundScale ≤ ((naturalIsotopics g).map (·.abund)).sum + abundTol (naturalIsotopics g).length ∧
+       ((naturalIsotopics g).map (·.abund)).sum ≤ abundScale + abundTol (naturalIsotopics g).length)) := by
+  simp only [checkNaturals, Bool.and_eq_true, List.all_eq_true] at h
+  obtain ⟨hm, hs⟩ := h
+  obtain ⟨hl, hp⟩ := naturalsMatch_sound gs ns hm
+  refine ⟨hl, hp, ?_⟩
+  intro g hg
+  have := hs g hg
+  simp only [naturalSumOk, Bool.or_eq_true, Bool.and_eq_true, decide_eq_true_eq, List.isEmpty_iff] at this
+  exact this
+
 /-! ## the obligations over the regenerated table (re-checked by the kernel whenever the data change) -/
 namespace Table
 open Gen
@@ -229,6 +329,35 @@ theorem mcc3v71_unique : ∀ e1 ∈ mcc3v71, ∀ e2 ∈ mcc3v71, e1.1 = e2.1 →
   mcc_column_sound mcc3v71 mcc_checks.2.2.1
 theorem mcc_names_known : ∀ k ∈ mccKeys, ∃ r ∈ allRows groups, r.key = k :=
   mcc_names_sound groups mccKeys mcc_checks.2.2.2
+
+theorem elements_checks : checkElements elements = true := by decide +kernel
+
+theorem naturals_checks : checkNaturals groups naturals = true := by decide +kernel
+
+/-- **element symbols are pairwise distinct and symbol ↔ atomic number is a bijection on elements.dat** -/
+theorem z_symbol_bijection : ∀ e1 ∈ elements, ∀ e2 ∈ elements,
+    (e1.sym = e2.sym ↔ e1.z = e2.z) ∧ (e1.sym = e2.sym → e1 = e2) := (checkElements_sound _ elements_checks).2
+
+theorem element_symbols_wellformed : ∀ e ∈ elements, symValid e.sym = true := (checkElements_sound _ elements_checks).1
+
+/-- **no two of the nuclides of nuclides.dat share a name, label, MCNP id, AAAZZZS id or database name STRING** -/
+theorem nuclides_id_strings_unique : ∀ r1 ∈ allRows groups, ∀ r2 ∈ allRows groups,
+    (nameChars r1 = nameChars r2 ∨ (∃ l, labelCharsOf r1 = some l ∧ labelCharsOf r2 = some l) ∨
+      mcnpChars r1 = mcnpChars r2 ∨ aaazzzsChars r1 = aaazzzsChars r2 ∨ dbNameChars r1 = dbNameChars r2) →
+    r1 = r2 := table_id_strings_unique facts element_symbols_wellformed
+
+theorem nuclides_labels_defined : ∀ r ∈ allRows groups, ∃ l, labelCharsOf r = some l := table_labels_defined facts
+
+/-- **natural isotopics per element (isomers such as Ta-180m included) = what the implementation reports; sums to one** -/
+theorem natural_isotopics_sound : groups.length = naturals.length ∧
+    (∀ p ∈ groups.zip naturals, p.1.z = p.2.1 ∧ (naturalIsotopics p.1).map isoKey = p.2.2) ∧
+    (∀ g ∈ groups, naturalIsotopics g = [] ∨
+      (abundScale ≤ ((naturalIsotopics g).map (·.abund)).sum + abundTol (naturalIsotopics g).length ∧
+       ((naturalIsotopics g).map (·.abund)).sum ≤ abundScale + abundTol (naturalIsotopics g).length)) :=
+  checkNaturals_sound groups naturals naturals_checks
+
+/-- the naturally occurring isomer is there: Ta-180m is a natural isotopic of tantalum -/
+theorem ta180m_is_natural : ∃ g ∈ groups, g.z = 73 ∧ 1801 ∈ (naturalIsotopics g).map isoKey := by decide +kernel
 
 /-- non-vacuity: the table is not empty and contains U-235 -/
 example : (⟨92, 21 * 27, 235, 0, 143, 720400000000000⟩ : Row) ∈ allRows groups := by decide +kernel
